@@ -32,6 +32,8 @@ Next == /\ l <= Len(Trace) /\ l' = l + 1
              [] Ev.op = "search" ->
                   /\ ((Ev.live # <<>> /\ Ev.res = <<>>) => PrintT("REPORT nonempty " \o ToString(l)))
                   /\ ((Ev.resident <= 2 * Ev.m /\ SetOf(Ev.res) # SetOf(Ev.exact)) => PrintT("REPORT smallexact " \o ToString(l)))
+             [] Ev.op = "search.lowef" ->
+                  ((Ev.live # <<>> /\ Ev.res = <<>>) => PrintT("REPORT nonempty " \o ToString(l)))
              [] Ev.op = "audit" ->
                   /\ ((Ev.live > 0 /\ Ev.empty > 0) => PrintT("REPORT nonempty " \o ToString(l)))
                   /\ (Ev.inexact > 0 => PrintT("REPORT smallexact " \o ToString(l)))
